@@ -171,6 +171,7 @@ func cmdMemConc(args []string) error {
 //
 //	sc_sc : Reader(f) held + Writer(g)  against  Writer(f) in one directory (deadlock before the fix)
 //	wf_rm : Remove(d) parked after its emptiness test, WriteFile(d/x) completes, Remove continues
+//	sc_rd : Writer(d/n) on a new file (parked before it locks the node, where the code still has such a point) against ReadFile(d/n)
 func cmdMemWitness(args []string) error {
 	byKey := map[string]int{}
 	examples := map[string][]map[string]string{}
@@ -295,6 +296,88 @@ func cmdMemWitness(args []string) error {
 			knownEx["D_RemoveVsCreate"] = what
 		} else if werr == nil && !exists {
 			add("lost-write", "wf_rm", what)
+		}
+	}
+	// ---- sc_rd: a stream writer creating a NEW file against ReadFile of that file
+	for round := 0; round < 3; round++ {
+		executed++
+		fs, _ := memfs.NewFilespace()
+		fs.MkdirAll("d", filesystem.DefaultUnixDirMode)
+		parked := make(chan struct{})
+		release := make(chan struct{})
+		var once sync.Once
+		memfs.VerifHook = func(site, path string) {
+			if site == "writer.filelock" {
+				once.Do(func() { close(parked); <-release })
+			}
+		}
+		opened := make(chan filesystem.Writer, 1)
+		go func() {
+			w, err := fs.Writer("d/n")
+			if err != nil {
+				opened <- nil
+				return
+			}
+			opened <- w
+		}()
+		type rd struct {
+			data []byte
+			err  error
+		}
+		read := func() chan rd {
+			c := make(chan rd, 1)
+			go func() {
+				b, err := fs.ReadFile("d/n")
+				c <- rd{b, err}
+			}()
+			return c
+		}
+		var w filesystem.Writer
+		select {
+		case <-parked: // the writer stands between making the node visible and locking it
+			select {
+			case r := <-read():
+				if r.err == nil && string(r.data) != "FULL" {
+					add("torn:new-file-visible-empty", "Writer(d/n) parked before taking the data lock of the file it created; ReadFile(d/n)",
+						fmt.Sprintf("ReadFile returned %q, nil while the only writer had not written yet", r.data))
+				}
+			case <-time.After(150 * time.Millisecond): // blocked: fine
+			}
+			close(release)
+			w = <-opened
+		case w = <-opened:
+			close(release)
+		case <-time.After(3 * time.Second):
+			add("hang", "sc_rd", "Writer did not return")
+			memfs.VerifHook = nil
+			continue
+		}
+		memfs.VerifHook = nil
+		if w == nil {
+			add("witness:error", "sc_rd", "Writer(d/n) failed")
+			continue
+		}
+		// the handle is open and nothing is written yet: a read must wait for Close or fail, never return early
+		c := read()
+		select {
+		case r := <-c:
+			if r.err == nil {
+				add("torn:read-during-open-writer", "Writer(d/n) open, nothing written; ReadFile(d/n)", fmt.Sprintf("ReadFile returned %q before the writer closed", r.data))
+			}
+			w.Write([]byte("FULL"))
+			w.Close()
+		case <-time.After(100 * time.Millisecond):
+			w.Write([]byte("FU"))
+			w.Write([]byte("LL"))
+			w.Close()
+			select {
+			case r := <-c:
+				if r.err != nil || string(r.data) != "FULL" {
+					add("torn:read-after-close", "sc_rd", fmt.Sprintf("ReadFile returned %q, %v after the writer closed", r.data, r.err))
+				}
+			case <-time.After(5 * time.Second):
+				add("hang", "sc_rd", "ReadFile did not return after the writer closed")
+			}
 		}
 	}
 	out := map[string]interface{}{"executed": executed, "failures_by_key": byKey, "examples": examples, "known": known, "known_examples": knownEx}
